@@ -1,8 +1,111 @@
-(* C20 -- Parsing never reaches outside the document.  Property theorems only. *)
-From SV Require Import Lib.Base C20.Entities.
+(* C20 -- Parsing never reaches outside the document.
+   Property theorems only: each is closed by `exact` of a lemma proved in
+   IoProofs / ContentProofs / FuelProofs and followed by Print Assumptions.
 
-(* every place where suds parses XML obtains its parser from Parser.saxparser,
-   which switches external general entities off whatever the library default *)
+   Model: C20/Entities.v.  [read fuel cfg resolve doc] is the reader suds uses
+   (expat's prolog / content / attribute-value rules, xml.sax.expatreader's
+   external_entity_ref gate, suds' Handler) as a function of the document, the
+   feature flags and the ORACLE [resolve] for everything outside the document;
+   [io_log] is the list of system identifiers the oracle was asked for
+   (= files opened / URLs fetched). *)
+From SV Require Import Lib.Base C20.Entities C20.IoProofs C20.ContentProofs C20.FuelProofs.
+
+(* With external general entities off, NO document -- whatever its internal
+   subset, external subset, general / parameter entity declarations, nesting
+   depth and system identifiers -- makes the reader consult the outside. *)
+Theorem no_external_io : forall fuel cfg resolve x,
+  ges cfg = false -> io_log (read fuel cfg resolve x) = [].
+Proof. exact read_quiet. Qed.
+Print Assumptions no_external_io.
+
+(* ... and the result (tree, error or not) is the same whatever is out there:
+   in particular the same as in a world where nothing can be resolved. *)
+Theorem oracle_independent : forall fuel cfg resolve x,
+  ges cfg = false -> read fuel cfg resolve x = read fuel cfg (fun _ => None) x.
+Proof. intros; apply read_oracle_independent; assumption. Qed.
+Print Assumptions oracle_independent.
+
+(* The funnel: every place where suds parses XML (Parser.parse string / file,
+   client._parse for replies and injected messages, DocumentReader.__fetch,
+   DocumentCache.get) obtains its parser from Parser.saxparser, which switches
+   the feature off whatever the library default is. *)
 Theorem entry_points_flags_off : forall e lib_default, ges (entry_config e lib_default) = false.
-Proof. intros [] ?; reflexivity. Qed.
+Proof. exact entry_config_off. Qed.
 Print Assumptions entry_points_flags_off.
+
+(* Hence, through every suds entry point, for every library default, every
+   outside world and every document: no outside access, and a result that
+   does not depend on the outside world. *)
+Theorem suds_no_external_io : forall e fuel lib_default resolve x,
+  fst (entry_parse e fuel lib_default resolve x) = [] /\
+  entry_parse e fuel lib_default resolve x = entry_parse e fuel lib_default (fun _ => None) x.
+Proof. intros; split; [apply entry_quiet|apply entry_oracle_independent]. Qed.
+Print Assumptions suds_no_external_io.
+
+(* No external content in the result: every character of the tree (text and
+   attribute values) comes from the document's own literals -- body text,
+   attribute literals, internal entity values (also those declared inside
+   parameter entities), attribute defaults -- or is a predefined character.
+   [A] is any property of characters true of those. *)
+Theorem no_external_content : forall (A : N -> Prop) fuel cfg resolve x lg t,
+  (forall n c, predefined n = Some c -> A c) ->
+  ges cfg = false -> doc_in A x ->
+  read fuel cfg resolve x = (lg, Ok t) -> Forall A (tree_chars t).
+Proof. intros A fuel cfg resolve x lg t HA Hg Hx H. exact (read_in A HA fuel cfg resolve x lg t Hg Hx H). Qed.
+Print Assumptions no_external_content.
+
+(* the form the harness observes: a marker character that occurs nowhere in
+   the document (it is planted only in outside resources) is not in the tree *)
+Corollary marker_never_in_tree : forall m fuel cfg resolve x lg t,
+  predefined_chars_differ m ->
+  ges cfg = false -> doc_in (fun c => c <> m) x ->
+  read fuel cfg resolve x = (lg, Ok t) -> ~ In m (tree_chars t).
+Proof.
+  intros m fuel cfg resolve x lg t Hm Hg Hx H Hin.
+  pose proof (read_in (fun c => c <> m) Hm fuel cfg resolve x lg t Hg Hx H) as HF.
+  unfold tree_in in HF. rewrite Forall_forall in HF. exact (HF m Hin eq_refl).
+Qed.
+Print Assumptions marker_never_in_tree.
+
+(* Fuel is only a device for termination: a run that does not end in [Fuel]
+   gives the same answer with any larger fuel. *)
+Theorem fuel_monotone : forall f f' cfg resolve x, f <= f' ->
+  result (read f cfg resolve x) <> Fuel -> read f' cfg resolve x = read f cfg resolve x.
+Proof. exact read_fuel_monotone. Qed.
+Print Assumptions fuel_monotone.
+
+(* The gate is what protects: the same reader with the feature ON does open
+   the file and does include its content (so the theorems above are about
+   the flag, not about a reader that could not reach outside anyway). *)
+Definition xxe_doc : doc :=
+  (mkDoc false None [DGenExt 10 1] [TOpen 20 []; TText [97]; TRef 10; TClose 20])%N.
+Definition xxe_world (s : sysid) : option resource :=
+  if N.eqb s 1 then Some (RText [TText [marker]]) else None.
+
+Theorem feature_on_reaches_outside :
+  read 5 (mkConfig true) xxe_world xxe_doc = ([1], Ok (RN 20 [] [97; marker] []))%N.
+Proof. vm_compute. reflexivity. Qed.
+Print Assumptions feature_on_reaches_outside.
+
+(* non-vacuity: the hypotheses of the theorems are satisfiable by a document
+   that does declare and reference external entities, an external subset and
+   an external parameter entity; with the feature off it parses to a tree *)
+Definition busy_doc : doc :=
+  (mkDoc false (Some 2)
+    [DGenExt 10 1; DGenInt 11 [TText [120]; TRef 10; TOpen 21 [(30, [AText [118]])]; TClose 21];
+     DGenInt 14 [TText [120]]; DAttDef 20 31 [ARef 14]; DParExt 12 4; DParRef 12; DGenInt 13 [TText [122]]]
+    [TOpen 20 [(30, [AText [107]])]; TText [97]; TRef 11; TRef 10; TRef 13; TClose 20])%N.
+
+Example busy_doc_nonvacuous :
+  doc_in (fun c => c <> marker) busy_doc /\
+  read 8 (saxparser true) xxe_world busy_doc
+  = ([], Ok (RN 20 [(30, [107]); (31, [120])] [97; 120] [RN 21 [(30, [118])] [] []]))%N.
+Proof.
+  split; [|vm_compute; reflexivity].
+  unfold doc_in, busy_doc, marker; simpl.
+  repeat (first [split | constructor | exact I | (intro HH; discriminate HH)]).
+Qed.
+
+Example feature_on_differs :
+  io_log (read 8 (mkConfig true) xxe_world busy_doc) <> [].
+Proof. vm_compute. discriminate. Qed.
